@@ -542,6 +542,146 @@ Proof.
   rewrite Hy, Hx, Hv. reflexivity.
 Qed.
 
+(** ** Acceptance and rejection *)
+
+Lemma check_names_valid count nm :
+  names_valid count nm = true -> check_names count nm = Some (names_list nm).
+Proof.
+  destruct nm as [|s|l]; cbn; [discriminate| |]; intros ->; reflexivity.
+Qed.
+
+Lemma horizontal_valid ce cn extras (datas : list arr2) e n :
+  horizontal close ce cn extras = Some (e, n) ->
+  forallb (rect (length n) (length e)) (extras ++ datas) = true ->
+  coords_valid close ce cn extras datas = true.
+Proof.
+  intros H F. destruct ce as [e1|E], cn as [n1|N]; cbn in H; try discriminate.
+  - injection H as -> ->. exact F.
+  - destruct (meshgrid_to_1d_Some _ _ _ _ _ _ H) as (Hnn & Hne & RE & RN & _ & CE & CN & _ & _ & Le & Ln).
+    rewrite Le, Ln in F. unfold coords_valid. cbn [forallb].
+    apply Nat.ltb_lt in Hnn. apply Nat.ltb_lt in Hne.
+    rewrite Hnn, Hne, RE, RN, F, CE, CN. reflexivity.
+Qed.
+
+Lemma valid_horizontal ce cn extras (datas : list arr2) :
+  coords_valid close ce cn extras datas = true ->
+  exists e n, horizontal close ce cn extras = Some (e, n) /\
+    forallb (rect (length n) (length e)) (extras ++ datas) = true.
+Proof.
+  intros H. destruct ce as [e1|E], cn as [n1|N]; try (cbn in H; discriminate).
+  - exists e1, n1. split; [reflexivity|exact H].
+  - unfold coords_valid in H. cbv zeta in H. cbn [forallb] in H.
+    apply andb_true_iff in H as [H CN]. apply andb_true_iff in H as [H CE].
+    apply andb_true_iff in H as [H F]. apply andb_true_iff in H as [Hnn Hne].
+    apply andb_true_iff in F as [RE F]. apply andb_true_iff in F as [RN F].
+    pose proof F as F'. rewrite forallb_app in F'. apply andb_true_iff in F' as [FX _].
+    exists (first_row E), (first_col N). cbn [horizontal]. unfold meshgrid_to_1d.
+    rewrite Hnn, Hne, RE, RN, FX, CE, CN. split; [reflexivity|].
+    apply Nat.ltb_lt in Hne. apply rect_spec in RN as [LN RN].
+    rewrite (length_first_col _ _ Hne RN), LN. exact F.
+Qed.
+
+(** make_xarray_grid accepts exactly the valid inputs *)
+Theorem make_accepts ce cn extras data dnames dims xnames :
+  make_valid close ce cn extras data dnames dims xnames = true ->
+  exists ds, make_xarray_grid close ce cn extras data dnames dims xnames = Some ds.
+Proof.
+  unfold make_valid. intros H.
+  apply andb_true_iff in H as [H Hd]. apply andb_true_iff in H as [H VD].
+  apply andb_true_iff in H as [HC VX].
+  destruct (valid_horizontal _ _ _ _ HC) as (e & n & Hh & F).
+  unfold make_xarray_grid. rewrite Hh.
+  assert (EX: exists xn, (match extras with [] => Some [] | _ :: _ => check_names (length extras) xnames end) = Some xn
+                         /\ length xn = length extras).
+  { destruct extras as [|x0 xs]; [exists []; split; reflexivity|].
+    exists (names_list xnames). pose proof (check_names_valid _ _ VX) as E1.
+    split; [exact E1|]. apply check_names_Some in E1. apply E1. }
+  destruct EX as (xn & -> & LX).
+  assert (ED: exists dn, (match data with DNone => Some [] | _ => check_names (length (data_list data)) dnames end) = Some dn
+                         /\ length dn = length (data_list data)).
+  { destruct data as [|a|l]; [exists []; split; reflexivity| |];
+      (exists (names_list dnames); pose proof (check_names_valid _ _ VD) as E1;
+       split; [exact E1|]; apply check_names_Some in E1; apply E1). }
+  destruct ED as (dn & -> & LD).
+  unfold xr_dataset. apply negb_true_iff in Hd. rewrite Hd.
+  rewrite forallb_app, !forallb_combine_snd, <- forallb_app, F by assumption.
+  eexists. reflexivity.
+Qed.
+
+Theorem make_rejects ce cn extras data dnames dims xnames :
+  make_valid close ce cn extras data dnames dims xnames = false ->
+  make_xarray_grid close ce cn extras data dnames dims xnames = None.
+Proof.
+  intros Hv. destruct (make_xarray_grid close ce cn extras data dnames dims xnames) as [ds|] eqn:H; [|reflexivity].
+  exfalso. destruct (make_structure _ _ _ _ _ _ _ _ H) as (e & n & Hh & Hd & _ & _ & F & VX & VD & _).
+  unfold make_valid in Hv. rewrite (horizontal_valid _ _ _ _ _ _ Hh F), VX, VD in Hv.
+  apply String.eqb_neq in Hd. rewrite Hd in Hv. discriminate.
+Qed.
+
+(** the individual rejection claims *)
+Theorem make_rejects_non_meshgrid_easting E N extras data dnames dims xnames i j x0 x :
+  cell E 0 j = Some x0 -> cell E i j = Some x -> close x0 x = false ->
+  make_xarray_grid close (A2 E) (A2 N) extras data dnames dims xnames = None.
+Proof.
+  intros H0 Hi Hc. apply make_rejects. unfold make_valid, coords_valid.
+  destruct (rows_close close E) eqn:R.
+  - rewrite (rows_close_cell _ _ _ _ _ _ R H0 Hi) in Hc. discriminate.
+  - rewrite !andb_false_r. reflexivity.
+Qed.
+
+Theorem make_rejects_non_meshgrid_northing E N extras data dnames dims xnames i j y0 y :
+  cell N i 0 = Some y0 -> cell N i j = Some y -> close y0 y = false ->
+  make_xarray_grid close (A2 E) (A2 N) extras data dnames dims xnames = None.
+Proof.
+  intros H0 Hi Hc. apply make_rejects. unfold make_valid, coords_valid.
+  destruct (cols_close close N) eqn:R.
+  - rewrite (cols_close_cell _ _ _ _ _ _ R H0 Hi) in Hc. discriminate.
+  - rewrite !andb_false_r. reflexivity.
+Qed.
+
+Theorem make_rejects_mixed_ndim e N extras data dnames dims xnames :
+  make_xarray_grid close (A1 e) (A2 N) extras data dnames dims xnames = None /\
+  make_xarray_grid close (A2 N) (A1 e) extras data dnames dims xnames = None.
+Proof. split; reflexivity. Qed.
+
+Theorem make_rejects_data_names ce cn extras data dnames dims xnames :
+  data <> DNone ->
+  names_valid (length (data_list data)) dnames = false ->
+  make_xarray_grid close ce cn extras data dnames dims xnames = None.
+Proof.
+  intros Hd Hn. apply make_rejects. unfold make_valid.
+  destruct data; [congruence| |]; rewrite Hn, !andb_false_r; reflexivity.
+Qed.
+
+Theorem make_rejects_extra_names ce cn extras data dnames dims xnames :
+  extras <> [] ->
+  names_valid (length extras) xnames = false ->
+  make_xarray_grid close ce cn extras data dnames dims xnames = None.
+Proof.
+  intros Hx Hn. apply make_rejects. unfold make_valid.
+  destruct extras; [congruence|]. rewrite Hn, !andb_false_r. reflexivity.
+Qed.
+
+(** a data or extra-coordinate array of the wrong shape is rejected (1-D
+    input: the shape is (len northing, len easting)) *)
+Theorem make_rejects_shape_1d e n extras data dnames dims xnames (a : arr2) :
+  In a (extras ++ data_list data) -> rect (length n) (length e) a = false ->
+  make_xarray_grid close (A1 e) (A1 n) extras data dnames dims xnames = None.
+Proof.
+  intros Hin Hr. apply make_rejects. unfold make_valid, coords_valid.
+  destruct (forallb _ _) eqn:F; [|reflexivity].
+  rewrite forallb_forall in F. rewrite (F a Hin) in Hr. discriminate.
+Qed.
+
+Theorem make_rejects_shape_2d E N extras data dnames dims xnames (a : arr2) :
+  In a (N :: extras ++ data_list data) -> rect (length E) (length (first_row E)) a = false ->
+  make_xarray_grid close (A2 E) (A2 N) extras data dnames dims xnames = None.
+Proof.
+  intros Hin Hr. apply make_rejects. unfold make_valid, coords_valid.
+  destruct (forallb _ _) eqn:F; [|rewrite !andb_false_r; reflexivity].
+  rewrite forallb_forall in F. rewrite (F a (or_intror Hin)) in Hr. discriminate.
+Qed.
+
 End Make.
 
 End Proofs.
